@@ -28,8 +28,10 @@ CHECKS = {
          "including 'every resolved constraint holds' (attachment invariant through bind's set merging, re-check rounds "
          "nested through fulfill -> below -> check_constraints); C03_gen_sound/_bounded/_extend/_satisfiable prove the "
          "main clause (witnessing instantiation for every accepted application, any type within the reported bounds, "
-         "bounded variables never compound) for ARBITRARY constraints; only 'every resolved constraint holds' for "
-         "compound or variable alternatives remains per-instance (verified checker)",
+         "bounded variables never compound) for ARBITRARY constraints; C03_conc_constraints_hold extends 'every resolved "
+         "constraint holds' to concrete targets/alternatives of any shape (compound, function types; strictness; "
+         "pending-but-resolved); only alternatives or targets that mention variables or wildcards remain per-instance "
+         "(verified checker)",
          "4 C03", "Coq proof (soundness of the engine model for arbitrary constraints) + verified per-instance checker + engine model correspondence"),
  "C05": ("on the faithful engine model: lub / permutation invariance / monotonicity proved for every hierarchy and "
          "any number of chain arguments (identity and nested covariant contexts, Top/Bottom included), glb for the "
